@@ -320,19 +320,20 @@ class Part(object):
 
         # correct for anacrusis
         # find the divs per (notated) beat in the first measure
-        divs_per_beat = (
-            self.quarter_duration_map(measures[0][0])
-            * 4
-            / self.time_signature_map(measures[0][0])[1]
-        )
-        if (
-            measures[0][1] - measures[0][0]
-            < self.time_signature_map(measures[0][0])[0] * divs_per_beat
-        ):
-            measures[0][0] = np.round(
-                measures[0][1]
-                - self.time_signature_map(measures[0][0])[0] * divs_per_beat
+        if len(measures) > 0:
+            divs_per_beat = (
+                self.quarter_duration_map(measures[0][0])
+                * 4
+                / self.time_signature_map(measures[0][0])[1]
             )
+            if (
+                measures[0][1] - measures[0][0]
+                < self.time_signature_map(measures[0][0])[0] * divs_per_beat
+            ):
+                measures[0][0] = np.round(
+                    measures[0][1]
+                    - self.time_signature_map(measures[0][0])[0] * divs_per_beat
+                )
 
         if len(measures) == 0:  # no measures in the piece
             # default only one measure spanning the entire timeline
@@ -383,19 +384,20 @@ class Part(object):
         )
         # correct for anacrusis
         # find the divs per (notated) beat in the first measure
-        divs_per_beat = (
-            self.quarter_duration_map(measures[0][0])
-            * 4
-            / self.time_signature_map(measures[0][0])[1]
-        )
-        if (
-            measures[0][1] - measures[0][0]
-            < self.time_signature_map(measures[0][0])[0] * divs_per_beat
-        ):
-            measures[0][0] = np.round(
-                measures[0][1]
-                - self.time_signature_map(measures[0][0])[0] * divs_per_beat
+        if len(measures) > 0:
+            divs_per_beat = (
+                self.quarter_duration_map(measures[0][0])
+                * 4
+                / self.time_signature_map(measures[0][0])[1]
             )
+            if (
+                measures[0][1] - measures[0][0]
+                < self.time_signature_map(measures[0][0])[0] * divs_per_beat
+            ):
+                measures[0][0] = np.round(
+                    measures[0][1]
+                    - self.time_signature_map(measures[0][0])[0] * divs_per_beat
+                )
 
         if len(measures) == 0:  # no measures in the piece
             # default only one measure spanning the entire timeline
